@@ -138,8 +138,7 @@ class Ctx:
             names = re.findall(r'^Theorem\s+([\w\']+)', src, re.M)
             names_all += names; self.obligations += names
         # forbidden constructs anywhere in the development
-        rc, out, err = sh("grep -rnE '%s' --include=*.v %s | grep -v '^[^:]*:[0-9]*: *(\\(\\*|\\*)' || true" % (FORBIDDEN, COQ))
-        bad = [l for l in out.split('\n') if l.strip() and not re.search(r'\(\*.*(Admitted|admit|Axiom|Parameter|Conjecture).*\*\)', l)]
+        bad = forbidden_scan()
         if bad:
             self.broken.append(('forbidden-construct', bad[0]))
         # build what the statement files Require (make + coqdep), then compile the statement files
@@ -252,6 +251,38 @@ class Ctx:
         self.log('done: obligations %d/%d, evaluations %d, violations %d, known findings %d, %.1fs' %
                  (len(self.discharged), len(self.obligations), self.cov['evaluations'], len(self.violations), len(self.known_hits), wall))
         sys.exit(1 if self.violations else 0)
+
+def strip_coq_comments(text):
+    """remove (possibly nested) (* ... *) comments, keeping newlines so that line numbers survive"""
+    out = []; depth = 0; i = 0; n = len(text); instr = False
+    while i < n:
+        c = text[i]
+        if depth == 0 and c == '"':
+            instr = not instr; out.append(c); i += 1; continue
+        if not instr and text.startswith('(*', i):
+            depth += 1; i += 2; continue
+        if not instr and depth > 0 and text.startswith('*)', i):
+            depth -= 1; i += 2; continue
+        if depth > 0:
+            if c == '\n': out.append(c)
+            i += 1; continue
+        out.append(c); i += 1
+    return ''.join(out)
+
+def forbidden_scan():
+    """Admitted/admit/Axiom/Parameter/Conjecture/guard switches anywhere in the development (comments ignored).
+    Variable/Hypothesis outside a Section are not detected here; Print Assumptions would list them as axioms."""
+    bad = []
+    for root, ds, fs in os.walk(COQ):
+        for f in fs:
+            if not f.endswith('.v') or re.search(r'dbg|debug|tmp|scratch|_try', f, re.I): continue
+            p = os.path.join(root, f)
+            try: txt = strip_coq_comments(open(p, errors='replace').read())
+            except OSError: continue
+            for ln, line in enumerate(txt.split('\n'), 1):
+                if re.search(FORBIDDEN, line):
+                    bad.append('%s:%d: %s' % (os.path.relpath(p, COQ), ln, line.strip()[:160]))
+    return bad
 
 def first_error(log):
     m = re.search(r'(File "[^"]+", line \d+, characters [\d-]+:\s*\n(?:Warning.*\n(?:.*\n)*?)?Error:?(?:.*\n){0,12})', log)
